@@ -15,7 +15,7 @@ TECHNIQUE = ('bounded exhaustive enumeration of EFLR content models (set x templ
 RULE = ('shape D (one attribute deep): set role/name x one template column over role x all 16 subsets of {C,R,U,V} x all 19 '
         'supported codes x count {0,1,2} x 0-2 objects whose component ranges over {omitted, absent, every subset of '
         'overriding {C,R,U,V}}; shape W (across columns): every 2-3 column template over {ordinary with default, ordinary '
-        'without, invariant} x every legal object shape word over {override, absent, trailing-omitted} x 0-2 objects; '
+        'without, invariant, invariant with every characteristic} x every legal object shape word over {override, absent, trailing-omitted} x 0-2 objects; '
         'shape F (across records): 1-2 logical files x 0-2 further sets (among them a second ORIGIN and a WELL-REFERENCE set) x an encrypted EFLR / IFLR at every position x '
         '{one segment, split across a visible record boundary}. non-trivial = anything but a single default column with no '
         'objects; outcome = hash of the decoded tables')
@@ -344,7 +344,7 @@ def gen_D(tier, code):
 
 
 def gen_W(tier, ncols, vcode):
-    cols_alpha = ['Av', 'A', 'I']
+    cols_alpha = ['Av', 'A', 'I', 'If']      # If: an invariant attribute with every characteristic present (descriptor 0x5F)
     names = [(0, 0, b'OBJ0'), (1, 1, b'OBJ1')]
     k = 0
     for word in itertools.product(cols_alpha, repeat=ncols):
@@ -354,12 +354,14 @@ def gen_W(tier, ncols, vcode):
             code = col['code']
             if w == 'Av':
                 col['values'] = vals(code, 1)
-            elif w == 'I':
+            elif w in ('I', 'If'):
                 col['inv'] = True
                 col['values'] = vals(code, 1, 1)
                 col['units'] = b'in'
+                if w == 'If':
+                    col['count'] = 1
             template.append(col)
-        nonidx = [j for j, w in enumerate(word) if w != 'I']
+        nonidx = [j for j, w in enumerate(word) if w not in ('I', 'If')]
         shapes = []
         for n in range(len(nonidx) + 1):              # n components present, the rest trailing-omitted
             for sw in itertools.product(('override', 'absent'), repeat=n):
